@@ -263,9 +263,15 @@ func checkMatCLI(c MatCase, names []string, wantSum [][]float64) error {
 	if len(c.Trees) > 1 {
 		args = append(args, "--avg")
 	}
+	if len(names)%2 == 0 {
+		args = append(args, "-o", "m.txt")
+	}
 	r := cli.Run(dir, sb.String(), args...)
 	if r.Code != 0 || r.TimedOut {
 		return fmt.Errorf("gotree %v exited with %d: %s", args, r.Code, r.Stderr)
+	}
+	if len(names)%2 == 0 {
+		r.Stdout = cli.Read(dir, "m.txt")
 	}
 	gn, gm, err := parseMatrix(r.Stdout)
 	if err != nil {
@@ -459,7 +465,13 @@ func checkCut(c CutCase) error {
 		if c.Thr == 0.5 {
 			cargs = []string{"brlen", "cut"} // the documented default of -l is 0.5
 		}
+		if len(c.Tree.Tips())%2 == 0 {
+			cargs = append(cargs, "-o", "groups.txt")
+		}
 		r := cli.Run(dir, ref.Write(c.Tree)+"\n", cargs...)
+		if len(c.Tree.Tips())%2 == 0 && r.Code == 0 {
+			r.Stdout = cli.Read(dir, "groups.txt")
+		}
 		if r.Code != 0 || r.TimedOut {
 			return fmt.Errorf("gotree brlen cut exited with %d: %s%s", r.Code, r.Stderr, ctx)
 		}
